@@ -130,7 +130,11 @@ def run(ctx):
     ctx.stage('key-table', cases=m)
     # non-mappings raise TypeError
     # (each kind of non-mapping twice, and once more after the others: the answer does not wear off)
-    for bad in ([1, 2], [3], 'text', 'more text', None, None, 5, 6, ('a', 'b'), ('c',), {1, 2}, {3}, b'x', b'y', [1, 2], 'text', None):
+    class Pairs:
+        """has items() but is no Mapping"""
+        def items(self):
+            return [('password', 'x')]
+    for bad in (Pairs(), [1, 2], [3], 'text', 'more text', None, None, 5, 6, ('a', 'b'), ('c',), {1, 2}, {3}, b'x', b'y', [1, 2], 'text', None):
         try:
             strutils.mask_dict_password(bad)
             out = 'returned'
